@@ -164,7 +164,7 @@ func sliceQuery(q string) (string, bool) {
 	}
 	usesSpec := false
 	for sym := range rel {
-		if strings.HasPrefix(sym, "sf_") || sym == "zeros" {
+		if strings.HasPrefix(sym, "sf_") || sym == "zeros" || sym == "ints" {
 			usesSpec = true
 			break
 		}
